@@ -271,10 +271,20 @@ def run(tier, seed):
         coverage["tlc"] = tl["coverage"]
         coverage["traces_validated_against_impl"] += tl["coverage"].get("edges_replayed", 0)
         violations.extend(tl["violations"])
+    from .. import kwforms
+
+    for w in kwforms.check("sequence"):
+        violations.append({"key": "keyword-form:" + w.split(":")[0][:60], "what": w, "case": {"kwforms": True}})
+    coverage["keyword_call_forms_checked"] = True
     return {"coverage": coverage, "violations": violations}
 
 
 def replay(case):
+    if isinstance(case, dict) and case.get("kwforms"):
+        from .. import kwforms
+
+        bad = kwforms.check("sequence")
+        return bad[0] if bad else None
     loader.install_shims()
     if case["kind"] == "history":
         prod = SeqProduct(tuple(case["init"]), tuple(case["values"]))
